@@ -13,7 +13,7 @@ from sa.report import Ctx
 from .common import generic_sweeps
 from sa.stutter import stutter_paths
 
-from .sat_common import SatRoles, check_add_sites, check_assumption_assertion, check_analysis, check_assign, check_backtrack, check_bcp, check_main_loop, check_heap_flags, check_variable_universe, check_input_copy
+from .sat_common import SatRoles, check_add_sites, check_binary_add, check_assumption_assertion, check_analysis, check_assign, check_backtrack, check_bcp, check_main_loop, check_heap_flags, check_variable_universe, check_input_copy
 
 EXPLANATION = (
     "Decides structural necessary conditions of 'INFEASIBLE only without a model / always returns within budgets' on "
@@ -37,6 +37,7 @@ def run(ctx: Ctx):
     ctx.step(check_verdicts, roles)
     ctx.step(check_pure_vs_assumptions, roles)
     ctx.step(check_add_sites, roles, "C02-O5")
+    ctx.step(check_binary_add, "C02-O5")
     ctx.step(check_backtrack, roles, "C02-O6")
     ctx.step(check_analyze_guard, roles)
     ctx.step(check_assumption_assertion, roles, "C02-O7")
@@ -484,7 +485,32 @@ def _v_learn_after_restart(tree):
     blk[j + 1 : j + 1] = moved
 
 
+def _v_ingest_watch_conditional(tree):
+    g = M.find_func(tree, "solve_sat")
+    for n in ast.walk(g):
+        if isinstance(n, ast.For) and M.src_is(n.iter, "enumerate(clauses)"):
+            chain = [x for x in n.body if isinstance(x, ast.If)]
+            if not chain:
+                continue
+            cur = chain[0]
+            while len(cur.orelse) == 1 and isinstance(cur.orelse[0], ast.If):
+                cur = cur.orelse[0]
+            if cur.orelse and M.src_has(cur.orelse[0], "add_watch"):
+                cond = M.stmts("if not skip.isdisjoint(clause):\n    pass")[0]
+                cond.test = M.expr("skip.isdisjoint(clause)")
+                cond.body = cur.orelse
+                cur.orelse = [cond]
+                k = g.body.index(n) if n in g.body else None
+                if k is None:
+                    raise M.Skip("ingest loop is not a top-level statement")
+                g.body.insert(k, M.stmts("skip = set()")[0])
+                return
+    raise M.Skip("ingest dispatch not found")
+
+
 VARIANTS = [
+    M.Variant("long input clauses get their watches only under an extra condition (seed C01-P)", SAT, _v_ingest_watch_conditional, "C02-O5"),
+
     M.Variant("pure-literal guard set holds signed literals (seed C02-A)", SAT, _v_assumed_literals, "C02-O4"),
     M.Variant("learned clause stored and asserted after the restart block (seed C02-B)", SAT, _v_learn_after_restart, "C02-O5"),
 
